@@ -5,7 +5,7 @@ from dliswriter.logical_record.core.eflr import EFLRItem, EFLRSet, DimensionedIt
 from dliswriter.logical_record.eflr_types.axis import AxisSet
 from dliswriter.logical_record.eflr_types.zone import ZoneSet
 from dliswriter.logical_record.eflr_types.long_name import LongNameSet
-from dliswriter.utils.internal.internal_enums import EFLRType
+from dliswriter.utils.internal.internal_enums import EFLRType, RepresentationCode as RepC
 from dliswriter.logical_record.core.attribute import (EFLRAttribute, NumericAttribute, DimensionAttribute,
                                                       EFLROrTextAttribute, PropertiesAttribute)
 
@@ -33,7 +33,7 @@ class ComputationItem(EFLRItem, DimensionedItem):
         self.axis = EFLRAttribute('axis', object_class=AxisSet, multivalued=True)
         self.zones = EFLRAttribute('zones', object_class=ZoneSet, multivalued=True)
         self.values = NumericAttribute('values', multivalued=True, multidimensional=True)
-        self.source = EFLRAttribute('source')
+        self.source = EFLRAttribute('source', representation_code=RepC.OBJREF)  # an object of any type
 
         super().__init__(name, parent=parent, **kwargs)
 
